@@ -27,8 +27,7 @@ theorem conforming_archive_clones (H : Bytes → Bytes) (hH : ∀ x, (H x).lengt
     (archive src : Bytes) (hc : Conforms H decomp features archive src)
     (opts : CloneOpts) (prior : Bytes) (seeds : List Bytes)
     (hpin : opts.headerPin = none)
-    (hdev : opts.blockDev = true → src.length ≤ prior.length)
-    (hbv : opts.blockDev = true → opts.verifyOutput = false) :
+    (hdev : opts.blockDev = true → src.length ≤ prior.length) :
     ∃ a cks, tryInit H features (honestReadAt archive) = .ok a ∧ Describes H a src cks ∧
       let r := Clone.run H decomp features (honestReadAt archive) (honestReadChunks archive) opts prior seeds
       (r.result = .ok ∧ setLen r.output src.length = src ∧ (opts.blockDev = false → r.output = src)) ∨
@@ -36,7 +35,7 @@ theorem conforming_archive_clones (H : Bytes → Bytes) (hH : ∀ x, (H x).lengt
   obtain ⟨a, cks, hinit, hd, hs⟩ := hc
   refine ⟨a, cks, hinit, hd, ?_⟩
   exact Proofs.clone_complete_nojunk H hH decomp features archive opts prior seeds a src cks hinit hd hs
-    (by intro pin hp; rw [hpin] at hp; cases hp) hdev hbv
+    (by intro pin hp; rw [hpin] at hp; cases hp) hdev
 
 /-- What the reader reports about a conforming archive is what the archive says: the accessor
 values are the decoded dictionary's (this is `Describes` + `tryInit_ok_facts`; the values
@@ -69,7 +68,6 @@ theorem conforming_archive_clones_over_http (H : Bytes → Bytes) (hH : ∀ x, (
     (hat : ∀ off size, ∃ frags rest, e.atScript off size = Resp.full frags :: rest)
     (hpin : opts.headerPin = none)
     (hdev : opts.blockDev = true → src.length ≤ prior.length)
-    (hbv : opts.blockDev = true → opts.verifyOutput = false)
     (hbad : (e.chunksScript.filter (fun r => match r with | .full _ => false | .part _ _ cut => cut | .refuse => true)).length ≤ e.retry)
     (hnoend : ∀ r ∈ e.chunksScript, ∀ n frags, r ≠ Resp.part n frags false) :
     ∃ a cks, tryInit H features (honestReadAt archive) = .ok a ∧ Describes H a src cks ∧
@@ -80,7 +78,7 @@ theorem conforming_archive_clones_over_http (H : Bytes → Bytes) (hH : ∀ x, (
   obtain ⟨a, cks, hinit, hd, hs⟩ := hc
   refine ⟨a, cks, hinit, hd, fun hlen => ?_⟩
   exact Proofs.clone_http_complete_budget H hH decomp features archive e opts prior seeds a src cks hserve hat
-    hinit hd hs (by intro pin hp; rw [hpin] at hp; cases hp) hdev hbv hbad hnoend hlen
+    hinit hd hs (by intro pin hp; rw [hpin] at hp; cases hp) hdev hbad hnoend hlen
 
 /-- **C17 through the local reader** under any short-read / `Pending` behaviour that eventually
 delivers. -/
@@ -92,8 +90,7 @@ theorem conforming_archive_clones_through_io_reader (H : Bytes → Bytes) (hH : 
       size ≤ ((e.atScript off size).filter (· ≠ ReadEv.pending)).length)
     (hcs : ∀ ev ∈ e.chunksScript, ev = ReadEv.pending ∨ ∃ n, 1 ≤ n ∧ ev = ReadEv.bytes n)
     (hpin : opts.headerPin = none)
-    (hdev : opts.blockDev = true → src.length ≤ prior.length)
-    (hbv : opts.blockDev = true → opts.verifyOutput = false) :
+    (hdev : opts.blockDev = true → src.length ≤ prior.length) :
     ∃ a cks, tryInit H features (honestReadAt e.file) = .ok a ∧ Describes H a src cks ∧
       ((a.chunks.map (·.archiveSize)).sum ≤ (e.chunksScript.filter (· ≠ ReadEv.pending)).length →
       let r := Clone.run H decomp features e.readAt e.readChunks opts prior seeds
@@ -102,7 +99,7 @@ theorem conforming_archive_clones_through_io_reader (H : Bytes → Bytes) (hH : 
   obtain ⟨a, cks, hinit, hd, hs⟩ := hc
   refine ⟨a, cks, hinit, hd, fun hlen => ?_⟩
   exact Proofs.clone_io_complete H hH decomp features e opts prior seeds a src cks hat ⟨hcs, hlen⟩
-    hinit hd hs (by intro pin hp; rw [hpin] at hp; cases hp) hdev hbv
+    hinit hd hs (by intro pin hp; rw [hpin] at hp; cases hp) hdev
 
 /-- **C17 at the command line** (file-system model): `bita clone` of any conforming archive file into
 a path that does not exist - or over a regular file with `--force-create` / `--seed-output` -,
